@@ -441,7 +441,7 @@ def _show(x):
 # --------------------------------------------------------------------------- correspondence
 def model_case(case, res):
     ser = res["ser"]
-    return {k: ser[k] for k in ("nodes", "slots", "fields", "impKeys", "counts", "surfKind", "nconst", "probes", "wprobes")} | {"edits": [e for e in case["script"] if e[0] != "addThermal"]}
+    return {k: ser[k] for k in ("nodes", "slots", "fields", "impKeys", "counts", "surfKind", "nconst", "fillParens", "probes", "wprobes")} | {"edits": [e for e in case["script"] if e[0] != "addThermal"]}
 
 
 def _canon_list(xs):
@@ -512,6 +512,14 @@ def written_of_table(t1, A, wprobes):
         elif kind == "w.cellFill":
             v = t1.get(("cell", k[1], "fill", None))
             out.append("absent" if not v or not isinstance(v[0], Fraction) else {"int": int(v[0])})
+        elif kind == "w.cellFillTr":
+            v = t1.get(("cell", k[1], "fill", None))
+            if v and len(v) == 4 and v[1] == "(" and isinstance(v[2], Fraction):
+                out.append(val(v[2]))
+            elif v and len(v) > 1:
+                out.append(None)  # an in-line transform: not in the model
+            else:
+                out.append("absent")
         elif kind == "w.surfModifier":
             m = t1.get(("surf", k[1], "modifier"))
             out.append({"text": m} if m else "absent")
